@@ -4210,9 +4210,10 @@ int CLUFactor<R>::solveUpdateLeft(R eps, R* vec, int* nonz, int n)
       val = &lval[k];
       idx = &lidx[k];
 
-      k = lrow[i];
+      /* k must keep the start of the eta vector as loop bound; use a separate row index */
+      const int r = lrow[i];
 
-      y = vec[k];
+      y = vec[r];
       StableSum<R> tmp(-y);
 
       for(j = lbeg[i + 1]; j > k; --j)
@@ -4227,14 +4228,14 @@ int CLUFactor<R>::solveUpdateLeft(R eps, R* vec, int* nonz, int n)
 
          if(isNotZero(y, eps))
          {
-            nonz[n++] = k;
-            vec[k] = y;
+            nonz[n++] = r;
+            vec[r] = y;
          }
       }
       else
       {
          y = -R(tmp);
-         vec[k] = (y != 0) ? y : SOPLEX_FACTOR_MARKER;
+         vec[r] = (y != 0) ? y : SOPLEX_FACTOR_MARKER;
       }
    }
 
